@@ -73,6 +73,13 @@ Lemma sorted_keys_unordered : forall a b st, sorted_keys false a st = sorted_key
 Proof. reflexivity. Qed.
 
 (* --------------------------------------------------------------- the window *)
+Lemma lastk_app : forall k (log : list pub) p, lastk (S k) (log ++ [p]) = lastk k log ++ [p].
+Proof.
+  intros. unfold lastk. rewrite app_length. simpl.
+  replace (length log + 1 - S k)%nat with (length log - k)%nat by lia.
+  rewrite skipn_app. replace (length log - k - length log)%nat with O by lia. reflexivity.
+Qed.
+
 Lemma window_app : forall (n : N) (log : list pub) (p : pub),
   skipn (length (window n log ++ [p]) - N.to_nat n) (window n log ++ [p]) = window n (log ++ [p]).
 Proof.
@@ -94,7 +101,7 @@ Definition ord_ok (cfgs : list rawcfg) (i : N) (c : mchan) : Prop :=
   (c_state c <> [] -> c_ordered c = ordered_of cfgs i).
 
 Definition chanR (cfgs : list rawcfg) (i : N) (c : mchan) (sc : schan) : Prop :=
-  c_stream c = mkStream (N.of_nat (length (sc_log sc))) (sc_epoch sc) (window (size_of cfgs i) (sc_log sc)) /\
+  c_stream c = mkStream (N.of_nat (length (sc_log sc))) (sc_epoch sc) (retained (size_of cfgs i) sc) /\
   c_state c = sc_map sc /\
   (size_of cfgs i = 0 -> sc_log sc = []) /\
   ord_ok cfgs i c /\
@@ -111,7 +118,7 @@ Lemma chanR_pos : forall cfgs i c sc, chanR cfgs i c sc -> chan_pos c = s_pos sc
 Proof. intros cfgs i c sc (E & _). unfold chan_pos, s_pos. rewrite E. reflexivity. Qed.
 
 Lemma chanR_new : forall cfgs i ep o,
-  (o = true -> ordered_of cfgs i = true) -> chanR cfgs i (new_chan ep o) (mkSC ep [] []).
+  (o = true -> ordered_of cfgs i = true) -> chanR cfgs i (new_chan ep o) (mkSC ep [] [] 0 0 0).
 Proof.
   intros. unfold chanR, new_chan, ord_ok, cache_ok; simpl. repeat split; auto.
   intro C; contradiction C; reflexivity.
